@@ -72,8 +72,11 @@ func verifMarkupBody(rng *rand.Rand) (string, string) {
 		unit := []string{"<blockquote>a<ul><li>", "<blockquote><h3><ul><li><b><code>", "<ul><li>x<ul><li>y", "<h2><blockquote>q", "<div><ul><li><blockquote>z "}[rng.Intn(5)]
 		return strings.Repeat(unit, depth) + []string{"end", "text here", "<hr>", "<pre>a\nb</pre>"}[rng.Intn(4)], "text/html"
 	case 10: /* hundreds of nested inline styles, the same or alternating, around styled text */
-		depth := []int{80, 300, 500, 1100}[rng.Intn(4)]
 		unit := []string{"<b>", "<b><i>", "<b><i><u><s><code><mark>", "<a href=\"https://x.example/\">", "<i><a href=\"https://x.example/y\">"}[rng.Intn(5)]
+		depth := []int{80, 300, 500, 1100}[rng.Intn(4)]
+		if depth*len(unit) > 7000 {
+			depth = 7000 / len(unit) /* keep it a document of a few kilobytes */
+		}
 		return strings.Repeat(unit, depth) + "<i>" + strings.Repeat("y", 20+rng.Intn(120)) + "</i> tail", "text/html"
 	case 11: /* the same in Markdown */
 		depth := 5 + rng.Intn(120)
@@ -215,6 +218,8 @@ func TestVerifRender(t *testing.T) {
 		if c, ok := o["content"].(string); ok {
 			desc += " content=" + verifkit.Clip(c, 60) + fmt.Sprintf("(%d bytes, %v)", len(c), o["mediaType"])
 		}
+		encoded, _ := json.Marshal(o)
+		size0 := len(encoded)
 		out.Emit(verifkit.M{"ev": "begin", "i": i, "desc": desc})
 		if path := os.Getenv("VERIF_PRINT"); path != "" {
 			/* replay support: write the generated value instead of exercising it */
@@ -224,7 +229,7 @@ func TestVerifRender(t *testing.T) {
 		}
 		verifSlowest, verifSlowestWhat = 0, ""
 		verifWatchdog = time.AfterFunc(verifCallLimit, func() {
-			out.Emit(verifkit.M{"ev": "render", "i": i, "outcome": "timeout", "ms": verifCallLimit.Milliseconds(), "size": 0, "desc": desc, "what": "a single call did not return", "total_ms": 0})
+			out.Emit(verifkit.M{"ev": "render", "i": i, "outcome": "timeout", "ms": verifCallLimit.Milliseconds(), "size": 0, "desc": desc, "what": "a single call did not return", "total_ms": 0, "bytes": size0})
 			/* where it is stuck, for the replay file */
 			pprof.Lookup("goroutine").WriteTo(os.Stderr, 1)
 			os.Exit(3)
@@ -273,6 +278,6 @@ func TestVerifRender(t *testing.T) {
 		if !panicked {
 			what = verifSlowestWhat
 		}
-		out.Emit(verifkit.M{"ev": "render", "i": i, "outcome": outcome, "ms": verifSlowest, "total_ms": time.Since(start).Milliseconds(), "size": size, "desc": desc, "what": verifkit.Clip(what, 200)})
+		out.Emit(verifkit.M{"ev": "render", "i": i, "outcome": outcome, "ms": verifSlowest, "total_ms": time.Since(start).Milliseconds(), "size": size, "desc": desc, "what": verifkit.Clip(what, 200), "bytes": size0})
 	}
 }
